@@ -418,6 +418,43 @@ def small_population_battery():
     return out
 
 
+_TYPES = None
+
+
+def types_battery():
+    """variety of user-supplied objects: objective values handed back as numpy scalars / Python ints / float32, huge and tiny
+    values, integer-typed / very wide / extremely narrow bounds, string / tuple / None / duplicated choices, mixed-type permutation
+    items, 40 dimensions, a single variable.  Result-level checks only (like the small-population battery)."""
+    global _TYPES
+    if _TYPES is not None:
+        return _TYPES
+    tasks_ = [
+        {"vars": [["cm", [-10, -10, -10], [10, 10, 10]]], "obj": [{"fam": "sphere", "p": {"shift": 0.3}}], "ret": "np64"},           # int-typed bounds
+        {"vars": [["cm", [-5.0, -5.0], [5.0, 5.0]]], "obj": [{"fam": "rastrigin", "p": {"shift": 0.2}}], "ret": "np32"},
+        {"vars": [["cm", [-20.0, -20.0, -20.0], [20.0, 20.0, 20.0]]], "obj": [{"fam": "abs", "p": {"shift": 0.3}}], "ret": "int"},     # integer costs
+        {"vars": [["c", -1e12, 1e12], ["c", 0.0, 1e12]], "obj": [{"fam": "sphere", "p": {"shift": 0.3, "scale": 1e-9}}], "ret": "np64"},  # very wide
+        {"vars": [["c", 1.0, 1.0 + 1e-12], ["c", -3.0, 3.0]], "obj": [{"fam": "sphere", "p": {"shift": 0.3}}]},                          # extremely narrow
+        {"vars": [["cm", [-3.0] * 40, [3.0] * 40]], "obj": [{"fam": "sphere", "p": {"shift": 0.01}}], "ret": "np64"},                  # 40 dimensions
+        {"vars": [["c", -2.0, 9.0]], "obj": [{"fam": "sphere", "p": {"shift": 0.3, "scale": 1e300}}]},                                # huge values
+        {"vars": [["cm", [-2.0, -2.0], [2.0, 2.0]]], "obj": [{"fam": "sphere", "p": {"shift": 0.3, "scale": 1e-300}}]},               # tiny values
+        {"vars": [["d", ["red", "green", "blue", "green"]], ["d", [["a"], ("b", 1), None]], ["c", -1.0, 1.0]], "obj": [{"fam": "abs", "p": {"shift": 0.5}}]},
+        {"vars": [["p", ["x", 3, 2.5, "y", 7]]], "obj": [{"fam": "assign", "p": {"wseed": 5}}], "ret": "np64"},
+        {"vars": [["cm", [-4.0, -4.0, -4.0], [4.0, 4.0, 4.0]]], "obj": [{"fam": "sphere", "p": {"shift": 0.3, "offset": -50.0}}], "ret": "int"},  # all negative
+    ]
+    out = []
+    for a, opt in enumerate(opt_names()):
+        base = dict(base_configs()[opt])
+        for t, task in enumerate(tasks_):
+            minmax = ("min", "max")[(a + t) % 2]
+            cfg = dict(base, fitness_error=(None, 0.5)[t % 2], max_cycles=(6, 12)[t % 2])
+            spec = {"vars": task["vars"], "obj": task["obj"], "weights": None, "minmax": minmax, "seed": 4000000 + 100 * a + t}
+            if task.get("ret"):
+                spec["ret"] = task["ret"]
+            out.append({"i": f"y{len(out)}", "opt": opt, "cfg": cfg, "cfg_class": "types", "spec": spec, "mode": "serial", "workers": None})
+    _TYPES = out
+    return out
+
+
 def battery_inf():
     """objectives with non-finite values (death penalty: +inf for min tasks, -inf for max tasks outside a feasible box).
     Used by C02 only: cost/fitness truth must also hold for infinite objective values.  Not part of the universe because
